@@ -1,10 +1,12 @@
 (* C11/Properties.v — the property theorems only.  Each is closed by [exact] of a lemma from Proofs.v (or by
    [vm_compute] on a concrete witness for the _refuted / _nonvacuous statements) and followed by Print Assumptions.
 
-   Flag sets (Model.flags): [repaired] = behaviour for which the full property holds; [head] = /repo HEAD since 43d3a11
-   (the receiver never compares sequence numbers; bulk sync always replays the backlog window); [defective] = /repo
-   before the C11 fixes bb5ec1b, 88d6de6, 43d3a11.  Theorems named *_today_* were written against [defective]; each
-   comment says which flag it needs and whether /repo HEAD still has it (see notes/C11.md, KNOWN_FINDINGS.txt). *)
+   Flag sets (Model.flags): [head] = /repo HEAD (cd04fe0): everything found with this check is fixed there except that
+   the receiver never compares sequence numbers (open finding stale-redelivery-applied, flag f_stale); [repaired] =
+   [head] plus the dropping of messages that are not above the last sequence number seen; [defective] = /repo before
+   the C11 fixes bb5ec1b, 88d6de6, 43d3a11, cd04fe0.  Theorems named *_before_<commit>_* are historical witnesses of
+   defects fixed in that commit; the correspondence check runs [repaired] and [head] only, so a regression to any of
+   them is a VIOLATION. *)
 From OV Require Import Common.Base C11.Model C11.Proofs.
 
 (* ------------------------------------------------------------------ backlog *)
@@ -31,15 +33,15 @@ Theorem C11_backlog_range_default_capacity :
 Proof. exact backlog_range_default. Qed.
 Print Assumptions C11_backlog_range_default_capacity.
 
-(* The Range of /repo before bb5ec1b (flag f_range; fixed) is exact as long as every sequence number and bound is below 2^63. *)
-Theorem C11_backlog_range_today :
+(* Historical: the Range of /repo before bb5ec1b (flag f_range) was exact as long as every sequence number and bound is below 2^63. *)
+Theorem C11_backlog_range_before_bb5ec1b :
   forall cap qs first from to,
   (0 < cap <= max_make)%Z -> consec first qs -> (1 <= first)%Z -> (first + Z.of_nat (length qs) <= two63)%Z ->
   (0 <= from < two63)%Z -> (0 <= to < two63)%Z ->
   range defective (fold_left push qs (new_ring cap)) from to =
   Ok (map Some (filter (in_range from to) (skipn (length qs - Z.to_nat cap) qs))).
-Proof. exact backlog_range_today. Qed.
-Print Assumptions C11_backlog_range_today.
+Proof. exact backlog_range_before_fix. Qed.
+Print Assumptions C11_backlog_range_before_bb5ec1b.
 
 (* ... and wrong above (before bb5ec1b): an entry outside the requested range is returned (capacity 4) *)
 Definition ex_sess (sid : N) (v4 : option N) (pool : N) : session :=
@@ -133,7 +135,7 @@ Definition ex_b : N := 167772166.
 
 (* /repo HEAD (flag f_stale, known finding stale-redelivery-applied): create, release, then the create delivered once
    more — the session is back on the standby *)
-Theorem C11_converges_today_refuted :
+Theorem C11_converges_head_refuted :
   exists g0 cap g evs d,
   g <> 0%N /\ (forall e, In e evs -> s_srg (fst e) = g) /\
   delivery (snd (sender_run [(g, (0%N, new_ring cap))] evs)) 0 d (length (snd (sender_run [(g, (0%N, new_ring cap))] evs))) /\
@@ -148,7 +150,7 @@ Proof.
     eapply (dl_dup _ 2 0); [lia|reflexivity|]. apply dl_nil.
   - split; [reflexivity|]. split; vm_compute; discriminate.
 Qed.
-Print Assumptions C11_converges_today_refuted.
+Print Assumptions C11_converges_head_refuted.
 
 Example C11_converges_nonvacuous :
   (* the same history and delivery: the hypotheses of C11_converges hold and the repaired standby ends empty;
@@ -194,7 +196,7 @@ Ltac ex_uniq :=
 Ltac ex_inorder := repeat (eapply dl_next; [reflexivity|]); apply dl_nil.
 
 (* before 88d6de6 (flag f_drop; fixed in /repo): an update that changes the address leaves the old one reserved *)
-Theorem C11_pools_exact_today_refuted :
+Theorem C11_pools_exact_before_88d6de6_refuted :
   exists g0 cap g evs d x sid,
   g <> 0%N /\ (forall e, In e evs -> s_srg (fst e) = g) /\ fresh g0 /\
   (forall i, (i <= length evs)%nat -> uniq g0 (live_run (firstn i evs))) /\
@@ -208,11 +210,11 @@ Proof.
   split; [ex_uniq|]. split; [ex_inorder|]. split; [vm_compute; reflexivity|].
   vm_compute. intuition discriminate.
 Qed.
-Print Assumptions C11_pools_exact_today_refuted.
+Print Assumptions C11_pools_exact_before_88d6de6_refuted.
 
 (* before 88d6de6 (flag f_relall; fixed in /repo): releasing a session frees the same address held by a live session
    in another (VRF) pool *)
-Theorem C11_release_ignores_pool_today_refuted :
+Theorem C11_release_ignores_pool_before_88d6de6_refuted :
   exists g0 cap g evs d x sid,
   g <> 0%N /\ (forall e, In e evs -> s_srg (fst e) = g) /\ fresh g0 /\
   (forall i, (i <= length evs)%nat -> uniq g0 (live_run (firstn i evs))) /\
@@ -227,11 +229,11 @@ Proof.
   split; [discriminate|]. split; [intros e [<-|[<-|[<-|[]]]]; reflexivity|]. split; [exact ex_reg_fresh|].
   split; [ex_uniq|]. split; [ex_inorder|]. split; vm_compute; auto.
 Qed.
-Print Assumptions C11_release_ignores_pool_today_refuted.
+Print Assumptions C11_release_ignores_pool_before_88d6de6_refuted.
 
 (* before 43d3a11 (flag f_bulk; fixed in /repo): a bulk replay after everything was delivered brings a released
    session back *)
-Theorem C11_bulk_replay_today_refuted :
+Theorem C11_bulk_replay_before_43d3a11_refuted :
   exists ops,
   let y := sys_run defective (sys_init 8 [1%N] ex_reg) ops in
   next_of y 1 = length (y_sent y) /\ y_panics y = O /\ y_live y = [] /\
@@ -240,7 +242,7 @@ Proof.
   exists [OEvent (ex_sess 1 (Some ex_a) 1) false; OEvent (ex_sess 1 (Some ex_a) 1) true; ODeliver 1; ODeliver 1; OBulk 1].
   vm_compute. repeat split; try reflexivity; discriminate.
 Qed.
-Print Assumptions C11_bulk_replay_today_refuted.
+Print Assumptions C11_bulk_replay_before_43d3a11_refuted.
 
 Example C11_pools_exact_nonvacuous :
   (* two sessions, one gains an IANA address and changes its IPv4 address, the other is released; duplicates in the
@@ -267,13 +269,13 @@ Print Assumptions C11_pools_exact_nonvacuous.
 
 (* ------------------------------------------------------------------ replays of ranges on a receiver without sequence comparison *)
 (* PARTIAL (for /repo HEAD and every flag set with f_stale; the full statement C11_converges is refuted for them, see
-   C11_converges_today_refuted): the replicated STORE still converges for every history when each
+   C11_converges_head_refuted): the replicated STORE still converges for every history when each
    retransmission starts at or before the first undelivered message and runs on without a gap at least to the
    newest message delivered so far (single in-order deliveries, a duplicate of the newest message and replays of
    the backlog up to its end are such runs).  Missing with respect to the full property: arbitrary redelivery of
    older messages (refuted), and the pool reservations under range replays (not proved; proved for duplicates of a
    session's newest message: C11_pools_exact_head). *)
-Theorem C11_converges_today_partial :
+Theorem C11_converges_replays_partial :
   forall g0 cap g fl evs d,
   f_stale fl = true ->
   g <> 0%N -> (forall e, In e evs -> s_srg (fst e) = g) -> (N.of_nat (length evs) < n64)%N ->
@@ -281,10 +283,10 @@ Theorem C11_converges_today_partial :
   delivery_runs reqs 0 d (length reqs) ->
   forall k, aget keyeqb k (rc_store (recv_run fl (mkrecv [] [] g0) d)) =
             aget keyeqb k (expected_store (live_run evs)).
-Proof. exact converges_store_today. Qed.
-Print Assumptions C11_converges_today_partial.
+Proof. exact converges_store_replays. Qed.
+Print Assumptions C11_converges_replays_partial.
 
-Example C11_converges_today_partial_nonvacuous :
+Example C11_converges_replays_partial_nonvacuous :
   (* create, update, release of session 1 and a create of session 2; delivered as [1], [1,2] (replay from the start),
      [2,3,4] (replay overlapping the newest), [4] (duplicate of the newest) *)
   let s1 := ex_sess 1 (Some ex_a) 1 in
@@ -302,7 +304,7 @@ Proof.
   apply (dr_run _ 4 3 4); [lia|lia|vm_compute; lia|].
   apply dr_nil.
 Qed.
-Print Assumptions C11_converges_today_partial_nonvacuous.
+Print Assumptions C11_converges_replays_partial_nonvacuous.
 
 (* ------------------------------------------------------------------ the answer of Range is a value *)
 (* Op sequence [Range; Push*; observe]: whatever is pushed after the call, the answer the caller holds is still
@@ -322,7 +324,7 @@ Proof.
 Qed.
 Print Assumptions C11_range_answer_survives_pushes.
 
-(* fault sequences: a delivery whose store write fails (the handler returns the error; today lastSeq has already been
+(* fault sequences: a delivery whose store write fails (the handler returns the error; on /repo HEAD lastSeq has already been
    overwritten, the repaired receiver leaves it alone) followed by the retransmission of the same message has exactly
    the effect of one successful delivery — for every flag set, HEAD's included.  With C11_converges /
    C11_converges_head: failed attempts that are retransmitted before anything newer do not change the outcome. *)
@@ -331,11 +333,11 @@ Proof. exact failed_then_retransmitted. Qed.
 Print Assumptions C11_failed_then_retransmitted.
 
 (* ------------------------------------------------------------------ /repo HEAD's receiver *)
-(* HEAD (Model.head, and every flag set that applies whatever it is handed, releases the previous checkpoint's
+(* HEAD (Model.head — and every flag set that applies whatever it is handed, releases the previous checkpoint's
    reservations and releases pool-aware) never compares sequence numbers.  It converges — store AND pools — for
    every history and every delivery in which a message is delivered again only while no LATER message of the same
    session has been delivered (delivery_latest: in-order delivery plus duplicate suppression by the transport; its
-   complement is exactly the recorded finding stale-redelivery-applied, see C11_converges_today_refuted). *)
+   complement is exactly the recorded finding stale-redelivery-applied, see C11_converges_head_refuted). *)
 Theorem C11_converges_head :
   forall g0 cap g fl evs d,
   f_stale fl = true -> f_drop fl = false -> f_relall fl = false ->
@@ -392,9 +394,9 @@ Print Assumptions C11_head_nonvacuous.
    (server.go: latest live checkpoint of every session in the window; or, repaired, the session tables when the
    window does not reach back to what the standby has), then any further history evs2 delivered in order by the live
    stream.  Afterwards the standby's store holds exactly the sessions live on the active node, nothing panicked, and
-   the stream position is the sender's.  For flag sets that always replay the window (HEAD, f_window) the hypothesis
-   [window_covers] — every live session still has an entry in the retained window — is needed; it is exactly what the
-   recorded finding bulk-sync-misses-sessions-older-than-backlog violates (C11_bulk_window_head_refuted).
+   the stream position is the sender's.  For /repo HEAD (and [repaired]) no further hypothesis is needed.  For flag sets
+   that always replay the window (f_window: /repo before cd04fe0) the hypothesis [window_covers] — every live session
+   still has an entry in the retained window — is needed (C11_bulk_window_before_cd04fe0_refuted).
    PARTIAL with respect to the property: the pool reservations after a bulk sync are compared by the correspondence
    check only (no theorem). *)
 Theorem C11_bulk_then_stream_store_converges_partial :
@@ -410,28 +412,28 @@ Theorem C11_bulk_then_stream_store_converges_partial :
 Proof. exact bulk_then_stream. Qed.
 Print Assumptions C11_bulk_then_stream_store_converges_partial.
 
-(* HEAD without the coverage hypothesis: capacity 2, three sessions created, fresh standby, bulk sync — session 1 is
-   missing on the standby *)
-Theorem C11_bulk_window_head_refuted :
+(* Historical (fixed in cd04fe0): without the coverage hypothesis — capacity 2, three sessions created, fresh standby,
+   bulk sync — session 1 is missing on the standby *)
+Definition before_cd04fe0 : flags := mkflags false true false false false true.
+Theorem C11_bulk_window_before_cd04fe0_refuted :
   exists cap evs1,
-  let y := sys_run head (sys_init cap [1%N] ex_reg) (ev_ops evs1 ++ [OBulk 1]) in
+  let y := sys_run before_cd04fe0 (sys_init cap [1%N] ex_reg) (ev_ops evs1 ++ [OBulk 1]) in
   next_of y 1 = length (y_sent y) /\ y_panics y = O /\
   exists k, aget keyeqb k (rc_store (y_recv y)) = None /\ aget keyeqb k (expected_store (y_live y)) <> None.
 Proof.
   exists 2%Z, [(ex_sess 1 (Some ex_a) 1, false); (ex_sess 2 (Some ex_b) 1, false); (ex_sess 3 None 0, false)].
   vm_compute. split; [reflexivity|]. split; [reflexivity|]. exists (1, 1)%N. split; [reflexivity|discriminate].
 Qed.
-Print Assumptions C11_bulk_window_head_refuted.
+Print Assumptions C11_bulk_window_before_cd04fe0_refuted.
 
 Example C11_bulk_nonvacuous :
-  (* the same wrapped history: repaired-with-HEAD's-receiver (snapshot when behind) converges; HEAD converges when the
-     window covers (capacity 3) *)
+  (* the same wrapped history: /repo HEAD (snapshot when the standby is behind the window) converges; the code before
+     cd04fe0 converged when the window covered (capacity 3) *)
   let evs1 := [(ex_sess 1 (Some ex_a) 1, false); (ex_sess 2 (Some ex_b) 1, false); (ex_sess 3 None 0, false)] in
   let evs2 := [(ex_sess 2 (Some ex_b) 1, true)] in
-  let fixed := mkflags false true false false false false in
   let ops := ev_ops evs1 ++ [OBulk 1] ++ ev_ops evs2 ++ repeat (ODeliver 1) (length evs2) in
-  map fst (rc_store (y_recv (sys_run fixed (sys_init 2 [1%N] ex_reg) ops))) = [(1, 1); (1, 3)]%N /\
-  map fst (rc_store (y_recv (sys_run head (sys_init 3 [1%N] ex_reg) ops))) = [(1, 1); (1, 3)]%N /\
+  map fst (rc_store (y_recv (sys_run head (sys_init 2 [1%N] ex_reg) ops))) = [(1, 1); (1, 3)]%N /\
+  map fst (rc_store (y_recv (sys_run before_cd04fe0 (sys_init 3 [1%N] ex_reg) ops))) = [(1, 1); (1, 3)]%N /\
   window_covers 3 evs1 1.
 Proof.
   cbv zeta. split; [vm_compute; reflexivity|]. split; [vm_compute; reflexivity|].
